@@ -913,6 +913,31 @@ def stack_overflow_cases(ctx, only=None):
                          "afterwards these links were not checked as in a fresh process (index, events): %r" % (N, kind, k, outcome, bad[:4]))
 
 
+def awaitable_flavours(ctx, tier):
+    """Enumerated: an async function with one precondition, one capture and one postcondition, each in turn delivered as a
+    gated coroutine function / a sync callable returning a coroutine / returning a non-coroutine awaitable object, under
+    every truth assignment of the two conditions - through the same fault enumeration as the generated programs (every
+    injection point x fault kind, including a fault inside the awaited operation; an awaitable that is never awaited is
+    reported)."""
+    import itertools
+
+    for role, flavor in itertools.product(("require", "snapshot", "ensure"), ("gated", "ret_coro", "awaitable")):
+        decos = [{"t": "require", "cid": 1, "args": ["x"], "lam": False, "err": {"form": "instance"}},
+                 {"t": "snapshot", "sid": 1, "name": "s1", "args": ["x"], "lam": False},
+                 {"t": "ensure", "cid": 2, "args": ["x", "result", "OLD"], "lam": False, "err": {"form": "instance"}}]
+        for d in decos:
+            if d["t"] == role:
+                d["flavor"] = flavor
+        f0 = {"name": "f0", "kind": "function", "async": True, "params": ["x", "y"], "defaults": {"y": "None"}, "decos": decos,
+              "body": {"ret": "obj"}}
+        prog = {"funcs": [f0], "classes": []}
+        for t1, t2 in itertools.product(("T", "F"), repeat=2):
+            case = {"program": prog, "ops": [{"op": "callf", "f": "f0", "args": {"x": "bomb:x"}}],
+                    "truth": {1: [t1], 2: [t2]}, "pairs": [(0, 1), (3, 5), (8, 13)]}
+            check_program(ctx, case, tier)
+            ctx.count("directed:awaitable-flavours")
+
+
 def interpreter_modes(ctx, only=None):
     """The same in every interpreter mode: vf/scripts/c11_optmode.py (contracts forced with enabled=True) ends a checked call
     in every way - return, violated precondition / postcondition / invariant, an exception from a condition, KeyboardInterrupt
@@ -953,6 +978,7 @@ def run(ctx, tier, seed, shard, nshards):
         nested_family(ctx)
         stack_overflow_cases(ctx)
         interpreter_modes(ctx)
+        awaitable_flavours(ctx, tier)
 
     @given(st_case())
     def test(case):
